@@ -855,6 +855,8 @@ func (t *Term) def() string {
 			sb.WriteString(" " + a.ref())
 		}
 		sb.WriteString(")")
+	case "int2bv":
+		fmt.Fprintf(&sb, "((_ int2bv %d) %s)", t.p1, t.args[0].ref())
 	case "fp.add", "fp.sub", "fp.mul", "fp.div":
 		fmt.Fprintf(&sb, "(%s RNE %s %s)", t.op, t.args[0].ref(), t.args[1].ref())
 	case "fp.from_sbv":
